@@ -135,7 +135,16 @@ class Models:
                 a0d = None
             lastseg = re.sub(r'::<.*$', '', callee.split('>::')[-1] if '>::' in callee else callee.split('::')[-1]).split('::')[-1]
             as_list = lambda v: (list(v[3]) if v[2] == 1 else []) if (v is not None and v[0] == 'adt' and v[1] == 'Option' and isinstance(v[2], int)) else (list(v[3]) if (v is not None and v[0] == 'adt' and v[1] == 'ListIter') else None)
-            if lastseg == 'into_iter' and a0d is not None and a0d[0] == 'adt' and a0d[1] in ('Option', 'ListIter') and as_list(a0d) is not None and re.search(r'Option<|option::IntoIter|Chain<', callee):
+            if lastseg == 'into_iter' and a0d is not None and a0d[0] == 'adt' and a0d[1] == 'array':
+                self.note('fixed-size array literal by value: explicit value list')
+                return one(('adt', 'ListIter', 0, list(a0d[3])))
+            if lastseg == 'flatten' and a0d is not None and as_list(a0d) is not None and a0d[1] == 'ListIter':
+                inner = [as_list(d(x)) for x in as_list(a0d)]
+                if all(x is not None for x in inner):
+                    self.note('Iterator::flatten over a concrete list of concrete Some/None: explicit value list')
+                    return one(('adt', 'ListIter', 0, [y for x in inner for y in x]))
+                raise Stuck('flatten over items that are not concrete Options')
+            if lastseg == 'into_iter' and a0d is not None and a0d[0] == 'adt' and a0d[1] in ('Option', 'ListIter') and as_list(a0d) is not None and re.search(r'Option<|option::IntoIter|Chain<|Flatten<|array::IntoIter', callee):
                 self.note('Option / chain iterators over concrete Some/None: explicit value list')
                 return one(('adt', 'ListIter', 0, as_list(a0d)))
             if lastseg == 'chain' and a0d is not None and as_list(a0d) is not None and len(argv) == 2 and as_list(d(argv[1])) is not None:
